@@ -128,6 +128,59 @@ def ev_const(node, env, dict_names, lit):
     return UNKNOWN
 
 
+SAFE_CALLS = {"len", "int", "float", "min", "max", "abs", "range", "bool", "list", "tuple", "sum", "round", "sorted",
+              "reversed", "enumerate", "zip", "isinstance", "str", "partial", "dict"}
+
+
+def opaque_names(fn, funcs, dict_names):
+    """locals whose value comes from a source the constant propagation does not model (an attribute of a local
+    object, the result of a call of something that is neither a function of the package nor a plain builtin, an
+    entry of a dictionary that is not the literal parameter dictionary): such a value *may* be one of the propagated
+    constants, so a branch on it is not known to be live on both sides"""
+    def opaque(e):
+        for x in ast.walk(e):
+            if isinstance(x, ast.Name) and x.id in names:
+                return True
+            if isinstance(x, ast.Attribute) and isinstance(x.ctx, ast.Load) and isinstance(x.value, ast.Name) \
+                    and x.value.id in local_objs:
+                return True
+            if isinstance(x, ast.Call):
+                f = x.func
+                if isinstance(f, ast.Name):
+                    if f.id not in funcs and f.id not in SAFE_CALLS and f.id not in ("Sequence", "Function", "Op", "Operation", "Table",
+                                                                                    "argmin", "beta", "revolver_parameters"):
+                        return True
+                elif isinstance(f, ast.Attribute):
+                    if f.attr in ("get", "pop", "setdefault") or (isinstance(f.value, ast.Name) and f.value.id in local_objs):
+                        if f.attr not in ("insert", "insert_sequence", "append", "shift", "remove_useless_wm"):
+                            return True
+                else:
+                    return True
+            if isinstance(x, ast.Subscript) and isinstance(x.slice, ast.Constant) and isinstance(x.slice.value, str) \
+                    and isinstance(x.value, ast.Name) and x.value.id not in dict_names:
+                return True
+        return False
+    params = {a.arg for a in fn.args.args + fn.args.kwonlyargs}
+    local_objs = set()
+    for n in ast.walk(fn):
+        if isinstance(n, ast.Assign) and len(n.targets) == 1 and isinstance(n.targets[0], ast.Name) \
+                and isinstance(n.value, ast.Call) and isinstance(n.value.func, ast.Name) \
+                and n.value.func.id not in funcs and n.value.func.id not in SAFE_CALLS \
+                and n.value.func.id not in ("Sequence", "Function", "Op", "Operation", "Table", "argmin", "beta", "revolver_parameters"):
+            local_objs.add(n.targets[0].id)
+    names = set()
+    changed = True
+    while changed:
+        changed = False
+        for n in ast.walk(fn):
+            if isinstance(n, ast.Assign):
+                tg = [x.id for t in n.targets for x in ast.walk(t) if isinstance(x, ast.Name) and isinstance(x.ctx, ast.Store)]
+                if tg and not set(tg) <= names and opaque(n.value):
+                    names |= set(tg)
+                    changed = True
+    return names, opaque
+
+
 class Liveness:
     """live statements / functions of hrevolve_sequences under constant
     propagation, starting from the entry points used by the schedule classes"""
@@ -143,15 +196,52 @@ class Liveness:
                         self.funcs[n.name] = (rel, n)
         self.envs = {}
         self.param_consts = {}
+        self._opq = {}
         for _ in range(4):
             self.envs = {}
             self.dead_nodes = set()
+            self.maybe_nodes = set()
             self.live_funcs = set()
             self._entries()
             pc = self._param_consts()
             if pc == self.param_consts:
                 break
             self.param_consts = pc
+        self._certain()
+
+    def _certain(self):
+        """functions reachable from the entry points through calls that do not sit under a branch on an opaque value;
+        the other live functions are only *possibly* live (`maybe_funcs`)"""
+        self.certain_funcs = set()
+        todo = list(self.entries)
+        while todo:
+            f = todo.pop()
+            if f in self.certain_funcs or f not in self.funcs:
+                continue
+            self.certain_funcs.add(f)
+            for node in self.live_walk(f):
+                if id(node) in self.maybe_nodes:
+                    continue
+                if isinstance(node, ast.Call) and isinstance(node.func, ast.Name) and node.func.id in self.funcs:
+                    todo.append(node.func.id)
+        self.maybe_funcs = {f for f in self.live_funcs if f not in self.certain_funcs}
+
+    def maybe_taint(self):
+        """taint entries (construct prefix -> reasons) for the possibly-live functions"""
+        out = {}
+        for f in sorted(self.maybe_funcs):
+            rel, fn = self.funcs[f]
+            out[f"{rel[:-3].replace('/', '.')}.{f}"] = [(fn.lineno, "this function is reached only through a branch on a value "
+                                                         "whose origin the constant propagation cannot follow: it may be dead code")]
+        return out
+
+    def _opaque_test(self, fname, test):
+        if fname not in self._opq:
+            rel, fn = self.funcs[fname]
+            env, dn = self.env_of(fname)
+            self._opq[fname] = opaque_names(fn, self.funcs, dn)
+        names, opaque = self._opq[fname]
+        return opaque(test)
 
     def _param_consts(self):
         """parameter -> constant when every live in-package call site passes
@@ -236,6 +326,10 @@ class Liveness:
             if isinstance(s, ast.If):
                 v = ev_const(s.test, env, dn, self.lit)
                 if v is UNKNOWN:
+                    if self._opaque_test(fname, s.test):
+                        for d in list(s.body) + list(s.orelse):
+                            for n in ast.walk(d):
+                                self.maybe_nodes.add(id(n))
                     yield from self.live_body(fname, s.body)
                     yield from self.live_body(fname, s.orelse)
                 elif v:
